@@ -25,6 +25,30 @@ SHARED = ("writedir", "renderabstract", "gethandler")
 DECODERS = {"urllib.parse.unquote", "urllib.parse.unquote_plus", "urllib.parse.parse_qs", "urllib.parse.parse_qsl"}
 
 
+def writer_params(prog, resolver, g, cls):
+    """Parameters of method g that are written to the client (self.wfile.write) on every completing path."""
+    cached = getattr(g, "_pgv_writer_params", None)
+    if cached is not None:
+        return cached
+    out = None
+    try:
+        paths = Walker(prog, resolver, merge_loops=True).run(g, cls)
+    except Exception:
+        paths = []
+    for p in paths:
+        if p.kind == "raise":
+            continue
+        here = set()
+        for e in p.events:
+            if e.kind == "call" and isinstance(e.node.func, ast.Attribute) and e.node.func.attr == "write" \
+                    and (dotted(e.node.func.value) or "").endswith("wfile") and e.node.args:
+                a = expand_ast(e.node.args[0], g, e.defs) if e.defs else e.node.args[0]
+                here |= {x.id for x in ast.walk(a) if isinstance(x, ast.Name) and x.id in g.params}
+        out = here if out is None else (out & here)
+    g._pgv_writer_params = out or set()
+    return g._pgv_writer_params
+
+
 def check(ctx, rep):
     prog = ctx.prog
     eff = Effects(prog, ctx.resolver)
@@ -97,6 +121,20 @@ def check(ctx, rep):
                     a = expand_ast(wv.node.args[0], wd, s.defs) if wv.node.args else None
                     if a is not None and any(x is rcalls[0].node or norm(x) == norm(rcalls[0].node) for x in ast.walk(a)):
                         rendered_written = True
+                # ... or handed to a helper of the class that writes that parameter on every path
+                for ev in s.events:
+                    if rendered_written or ev.kind != "call" or not (isinstance(ev.node.func, ast.Attribute) and dotted(ev.node.func.value) == "self"):
+                        continue
+                    g = prog.resolve_method(pb, ev.node.func.attr)
+                    if g is None or g is wd:
+                        continue
+                    wp = writer_params(prog, ctx.resolver, g, pb)
+                    gparams = g.params[1:]
+                    for pname, argn in list(zip(gparams, ev.node.args)) + [(k.arg, k.value) for k in ev.node.keywords if k.arg]:
+                        if pname in wp:
+                            a = expand_ast(argn, wd, ev.defs or s.defs)
+                            if any(x is rcalls[0].node or norm(x) == norm(rcalls[0].node) for x in ast.walk(a)):
+                                rendered_written = True
                 if not rendered_written:
                     problems.append("the rendered line of an entry is not written on some path")
         rep.add("R06a", f"{wd.qualname}: every entry rendered and written once", not problems, ctx.where(wd), "; ".join(sorted(set(problems))),
@@ -157,10 +195,10 @@ def check(ctx, rep):
                         last = (e.node.value, dict(getattr(e, "defs", None) or {}))
                         last_defs_state = e
                     if e.kind == "call" and e.target.kind == "repo" and any(f.name in ("gethandler",) for f in e.target.funcs) and last is not None:
-                        if not _is_normalised(last[0], m, p, last_defs_state):
+                        if not _is_normalised(last[0], m, p, last_defs_state, ctx, P):
                             problems.add(f"`self.selector = {norm(last[0])[:40]}` reaches gethandler() without slashnormalize()")
                 if p.kind != "raise" and last is not None and mname == "__init__":
-                    if not _is_normalised(last[0], m, p, last_defs_state):
+                    if not _is_normalised(last[0], m, p, last_defs_state, ctx, P):
                         problems.add(f"the constructor leaves `self.selector = {norm(last[0])[:40]}` un-normalised")
             rep.add("R06b", f"{m.qualname}: selector normalised before handler selection", not problems, ctx.where(m), "; ".join(sorted(problems)),
                     key=f"R06b|{m.qualname}")
@@ -230,9 +268,9 @@ def check(ctx, rep):
     # ------------------------------------------------------------------ R06d
     for P in protos:
         for mname in ("adjustmimetype", "adjust_mimetype"):
-            m = P.methods.get(mname)
-            if m is None:
-                continue
+            m = prog.resolve_method(P, mname)
+            if m is None or (m.cls is not P and m.cls is not None and prog.is_subclass(m.cls, pb) and m.cls in protos):
+                continue  # inherited from another protocol class: decided there
             param = m.params[1] if len(m.params) > 1 else "mimetype"
             expected = _listing_type(ctx, prog, P)
             problems = set()
@@ -249,10 +287,10 @@ def check(ctx, rep):
                         continue
                     if want is not None and got != want:
                         problems.add(f"maps {label} type to {got!r}, expected {want!r}")
-            rep.add("R06d", f"{m.qualname}: menu -> {expected}", not problems, ctx.where(m), "; ".join(sorted(problems)), key=f"R06d|{m.qualname}")
+            rep.add("R06d", f"{P.qualname}.{mname}: menu -> {expected}", not problems, ctx.where(m), "; ".join(sorted(problems)), key=f"R06d|{P.qualname}.{mname}")
 
 
-def _is_normalised(value, func, path, ev) -> bool:
+def _is_normalised(value, func, path, ev, ctx=None, cls=None) -> bool:
     defs = getattr(ev, "defs", None) or {}
     v = value
     for _ in range(4):
@@ -260,6 +298,13 @@ def _is_normalised(value, func, path, ev) -> bool:
             v = defs[v.id]
         else:
             break
+    if ctx is not None and isinstance(v, ast.Call):
+        import copy
+
+        from ..structure import _ReturnInliner
+
+        # a one-return helper of the class stands for the expression it returns
+        v = _ReturnInliner(ctx.prog, ctx.resolver, func, cls).visit(copy.deepcopy(v))
     return isinstance(v, ast.Call) and isinstance(v.func, ast.Attribute) and v.func.attr == "slashnormalize" and dotted(v.func.value) == "self"
 
 
